@@ -48,13 +48,69 @@ Definition good_pairs (fl : list (Z * Q * bool)) : list (Z * Q) :=
 Definition mask_interp (interp : list (Z * Q) -> Z -> Q) (fl : list (Z * Q * bool)) : list Q :=
   map (fun t : Z * Q * bool => if snd t then interp (good_pairs fl) (fst (fst t)) else snd (fst t)) fl.
 
+(* ---------- np.interp(x, xp, fp) (library model; exercised by the correspondence run) ----------
+   the sample j with xp[j] <= x < xp[j+1] gives fp[j] + (fp[j+1]-fp[j]) (x - xp[j])/(xp[j+1]-xp[j]); x at or before the first
+   sample gives fp[0], at or beyond the last fp[-1] *)
+Fixpoint interp_seg (x x0 y0 : Q) (l : list (Q * Q)) : Q :=
+  match l with
+  | [] => y0
+  | (x1, y1) :: t => if Qle_bool x1 x then interp_seg x x1 y1 t else y0 + (y1 - y0) * ((x - x0) / (x1 - x0))
+  end.
+Definition np_interp (x : Q) (l : list (Q * Q)) : Q :=
+  match l with [] => 0 | (x0, y0) :: t => if Qle_bool x x0 then y0 else interp_seg x x0 y0 t end.
+
+(* ---------- djs_maskinterp1 on one row of (flux value, mask value), with the GENERATED good / bad tests and dispatch ---------- *)
+(* igood, ynew[igood]: (index, value) of the good pixels *)
+Fixpoint good_samples (i : Z) (l : list (Q * Q)) : list (Q * Q) :=
+  match l with
+  | [] => []
+  | (v, m) :: t => if maskinterp_good m then (inject_Z i, v) :: good_samples (i + 1) t else good_samples (i + 1) t
+  end.
+(* ynew[ibad] = np.interp(ibad, igood, ynew[igood]) *)
+Fixpoint fill_from (s : list (Q * Q)) (i : Z) (l : list (Q * Q)) : list Q :=
+  match l with
+  | [] => []
+  | (v, m) :: t => (if maskinterp_bad m then np_interp (inject_Z i) s else v) :: fill_from s (i + 1) t
+  end.
+Definition mi_row (l : list (Q * Q)) : list Q :=
+  let s := good_samples 0 l in
+  let all_good := forallb (fun p : Q * Q => maskinterp_good (snd p)) l in
+  match maskinterp_dispatch all_good (Z.of_nat (length s)) with
+  | 0%Z => map fst l
+  | 1%Z => match s with [] => map fst l | (_, v0) :: _ => map (fun _ => v0) l end
+  | _ => fill_from s 0 l
+  end.
+
+(* one (trace, band) of filter_thru(flux, mask=...) : masked pixels interpolated, then the band sum with weights ws *)
+Definition filter_trace (ws : list Q) (l : list (Q * Q)) : Q := filter_band (combine ws (mi_row l)).
+
+(* ---------- the filter response at a wavelength: np.interp in the GENERATED curve of band b ---------- *)
+Definition filter_response (b : nat) (lam : Q) : Q := np_interp lam (nth b filter_curves []).
+(* (fitted d(log lambda), wavelength, flux) -> (fitted, response, flux) *)
+Definition resp_tr (b : nat) (l : list (Q * Q * Q)) : list (Q * Q * Q) :=
+  map (fun t : Q * Q * Q => (fst (fst t), filter_response b (snd (fst t)), snd t)) l.
+Definition filter_thru_lam (b : nat) (l : list (Q * Q * Q)) : Q := filter_thru_band (resp_tr b l).
+
 (* ---------- cases ---------- *)
 Inductive case :=
 | CAir (k x r : Q)        (* airtovac on x [unit of k Angstrom]; the implementation returned r [same unit] *)
 | CVac (k x r : Q)        (* vactoair *)
-| CFilter (l : list (Q * Q * Q)) (r : Q) (tol : Q).   (* (fitted dloglam, response, interpolated flux) per pixel of one trace and band; result r *)
+| CFilter (l : list (Q * Q * Q)) (r : Q) (tol : Q)   (* (fitted dloglam, response, interpolated flux) per pixel of one trace and band; result r *)
+| CFilterLam (b : nat) (l : list (Q * Q * Q * Q)) (r : Q) (tol : Q)
+    (* band b; per pixel (fitted dloglam, wavelength handed to np.interp, response the implementation obtained, flux); result r *)
+| CMask (l : list (Q * Q)) (r : list Q) (tol : Q).   (* (flux, mask value) per pixel of one trace; r = the row after djs_maskinterp *)
 
 Definition tol_wave : Q := 1 # 1000000000000.   (* 1e-12 relative *)
+Definition tol_resp : Q := 1 # 1000000000000.   (* 1e-12 absolute: responses are <= 1 *)
+
+Definition lam_model (t : Q * Q * Q * Q) : Q * Q * Q := (fst (fst (fst t)), snd (fst (fst t)), snd t).
+Definition lam_recorded (t : Q * Q * Q * Q) : Q * Q * Q := (fst (fst (fst t)), snd (fst t), snd t).
+Fixpoint rows_close (a b : list Q) (tol : Q) : bool :=
+  match a, b with
+  | [], [] => true
+  | x :: t, y :: u => Qle_bool (Qabs (x - y)) tol && rows_close t u tol
+  | _, _ => false
+  end.
 
 Definition run_case (c : case) : Z :=
   match c with
@@ -67,6 +123,15 @@ Definition run_case (c : case) : Z :=
   | CFilter l r tol =>
       (if Qle_bool (Qabs (filter_thru_band l - r)) tol then 0 else 1) +
       (if wmean_ok (spec_pairs l) r tol then 0 else 2)
+  | CFilterLam b l r tol =>
+      (* M: the response is computed by the model from the generated curve; S: the implementation's own response values *)
+      (if Qle_bool (Qabs (filter_thru_lam b (map lam_model l) - r)) tol &&
+          forallb (fun t : Q * Q * Q * Q => Qle_bool (Qabs (filter_response b (snd (fst (fst t))) - snd (fst t))) tol_resp) l
+       then 0 else 1) +
+      (if wmean_ok (spec_pairs (map lam_recorded l)) r tol then 0 else 2)
+  | CMask l r tol =>
+      (if rows_close (mi_row l) r tol then 0 else 1) +
+      (if fill_ok l r tol then 0 else 2)
   end%Z.
 
 Definition run_cases (l : list case) : list Z := map run_case l.
